@@ -42,10 +42,25 @@ ASSUMPTIONS = [
     'documents: nested lists/dicts with str keys, None/bool/int (incl. > 2**64)/finite float/str (arbitrary unicode without lone surrogates); special floats and non-str keys excluded (as in the statement)',
     'proved JSON round trip (Js model): float-free documents (null/bool/int/str/list/dict with str keys), dict keys pairwise distinct at every level (always true of a Python dict; necessary for the assoc-list model), ints of at most 4300 decimal digits (CPython int/str conversion limit; necessary), strings are sequences of Unicode scalar values (no lone surrogates); nesting below the interpreter recursion limit (not modelled)',
     'form mappings: str keys/values, lists of >= 2 strings, no pair with both key and value empty (the side conditions of the to_query_str round trip, C08)',
+    '"undecodable" body = a non-empty body that is not a JSON text: not UTF-8 (RFC 8259 8.1) or not derivable from the grammar of RFC 8259 sections 2-7 (judged by an independent '
+    'iterative recognizer, lib_json.rfc8259 - not by the json module). Two documented leniencies are outside that oracle: the literals NaN / Infinity / -Infinity, which Python\'s json '
+    'module accepts (special floats are excluded by the statement), and a byte order mark in front (RFC 8259 lets a parser ignore it or reject it; falcon rejects it). '
+    'The oracle is one-directional: JSON texts beyond a resource limit of the decoder (> 4300 digits, nesting beyond the recursion limit) may also be answered 400',
+    'the JSON text a response carries is UTF-8 whatever the parameters of its Content-Type say (RFC 8259 8.1: no charset parameter is defined for application/json; falcon documents '
+    'that it always serializes to UTF-8), and a request body is read as UTF-8 whatever its charset parameter says - the two halves of the round trip "with the same content type"',
 ]
-RULE = ('(a) caching contract: bodies (valid / truncated / wrong encoding / empty / deeply nested JSON, forms) x content types (params, +json, unknown) x call sequences of length 1-5 over '
+RULE = ('(a) caching contract: bodies (valid / truncated / wrong encoding / empty / deeply nested JSON, forms; 30% NOT-JSON bodies, see a2) x content types (params incl. charset in every spelling, +json, unknown) x call sequences of length 1-5 over '
         'get_media()/get_media(default_when_empty=D)/media, WSGI and ASGI through full apps with a counting handler and a counting body stream; '
-        '(b) round trip: generated JSON documents and form mappings assigned to resp.media, the rendered body posted back under every chunking class; '
+        '(a2) NOT-JSON bodies: a valid generated text with ONE well-aimed defect out of 19 kinds - a raw control character (every one of U+0000..U+001F in turn) inside a string value or an object key at any depth '
+        '(between, not inside, escape sequences), truncation, trailing garbage, a structural character missing / doubled / replaced / trailing or leading comma, 25 bad numbers (01, 1., .5, +1, 0x10, non-ASCII digits ...), '
+        '20 bad literals (True, nul, Inf ...), 17 bad escapes (\\x41, \\u12, \\a ...), single / missing quotes, non-JSON whitespace between tokens (VT, FF, NBSP, U+2028, NUL ...), comments, invalid UTF-8 inside strings, '
+        'UTF-16 / UTF-32 / Latin-1 / EBCDIC encodings, mismatched brackets, non-string keys, no value at all, concatenated texts, Python repr - kept when the independent RFC 8259 recognizer says not-JSON; posted to whole apps '
+        '(WSGI / ASGI, stock / subclassed / explicitly configured JSONHandler, every chunking class, content types with parameters): must be answered 400, and given to JSONHandler.deserialize directly and to the Js model; '
+        '(b) round trip: generated JSON documents (half of them text-heavy: Latin-1 range, cp1252-only, BMP, astral, ASCII-only) and form mappings assigned to resp.media under content types WITH PARAMETERS '
+        '(charset = utf-8 / UTF-8 / utf8 / ISO-8859-1 / latin1 / windows-1252 / cp1252 / utf-16 / UTF-16LE / utf-32 / us-ascii / shift_jis / koi8-r / unknown ..., bare or quoted, any parameter-name case, with other parameters before / after; '
+        'version= / profile= / q= alone), stock / subclassed / explicit-dumps JSONHandler, falcon.Response and falcon.asgi.Response: the rendered bytes are UTF-8 JSON of the document, the other stack renders the same bytes, '
+        'and the body posted back with the same content type under every chunking class gives the document; '
+        '(b2) the same through whole apps (the responder sets the parameterised content type; 10 handler variants x 6 app constructions x both stacks on either side); '
         '(c) JSON format: float-free documents (nesting <= 5, escape-worthy/astral/control characters, ints up to the 4300-digit limit) serialized by JSONHandler vs the model byte for byte; JSON texts '
         '(documents re-spelled with arbitrary whitespace, short/\\uXXXX/surrogate-pair escapes, duplicate keys, -0; 0-2 single-character edits; injected invalid UTF-8; a fixed list of edge texts) '
         'deserialized by JSONHandler vs the model (value, not-found or malformed; plus the bare loads); texts whose value has a float or a lone surrogate are skipped and counted; '
@@ -73,6 +88,7 @@ def run(ctx):
     import falcon.asgi
     import falcon.testing as ft
     from falcon import errors, media
+    import lib_json as LJ
     rnd = ctx.rng
     DEF = object()
 
@@ -141,10 +157,11 @@ def run(ctx):
         if kind == 'boom': return 'oth:1'
         if kind == 'http': return 'oth:2'
         if not body: return 'nf'
+        if LJ.json_verdict(body) == 'invalid': return 'mal'     # not a JSON text by RFC 8259 / not UTF-8 (independent recognizer, lib_json.rfc8259)
         try:
             json.loads(body.decode()); return 'ok'
         except (ValueError, RecursionError):
-            return 'mal'
+            return 'mal'                                        # (JSON, but beyond a resource limit of the decoder: digits, nesting; or a BOM in front)
 
     def exc_tag(e):
         if isinstance(e, errors.MediaNotFoundError): return 'nf'
@@ -157,10 +174,19 @@ def run(ctx):
     for ci in range(ctx.n(500, 6000)):
         stack = rnd.choice(['wsgi', 'asgi'])
         kind = rnd.choice(['json', 'json', 'json', 'json', 'boom', 'http'])
-        body = rnd.choice(BODIES) if rnd.random() < 0.7 else json.dumps(gen_doc()).encode()
+        k_ = rnd.random()
+        body = rnd.choice(BODIES) if k_ < 0.5 else json.dumps(gen_doc()).encode() if k_ < 0.7 else None
+        if body is None:
+            # a body that is not a JSON text, of every kind (raw control characters inside strings, bad numbers / literals / escapes, wrong encoding ...)
+            ikind, body = LJ.gen_invalid(rnd, ctrl=chr(ci % 32))
+            if LJ.json_verdict(body) != 'invalid':
+                ikind = 'turned_out_' + LJ.json_verdict(body)
+            ctx.count('a_body_' + ikind)
         if rnd.random() < 0.1 and body: body = body[:rnd.randrange(len(body))]
         seq = [rnd.choice(['m', 'd', 'p']) for _ in range(rnd.randint(1, 5))]
         ctype = rnd.choice(['application/json', 'application/json', 'application/json; charset=utf-8', 'application/json;v=1', 'application/json ; charset="utf-8"'])
+        if rnd.random() < 0.25:
+            ctype = LJ.gen_json_ctype(rnd)[0]
         H = make_handler(kind)
         outs = []; ids = {}; streamops = []
 
@@ -264,13 +290,14 @@ def run(ctx):
             sess.op(f'json {0 if body else 1} {l}', w)
 
     # ------------------------------------------------------------ (b) round trips
-    def post_back(stack, ctype, body, chunks):
+    def post_back(stack, ctype, body, chunks, handler=None):
         """Send `body` to a fresh app of the given stack and return what req.get_media() gives."""
         box = {}
         if stack == 'wsgi':
             class R:
                 def on_post(self, req, resp): box['v'] = req.get_media()
             app = falcon.App(); app.add_route('/', R())
+            if handler is not None: app.req_options.media_handlers['application/json'] = handler
             env = ft.create_environ(method='POST', path='/', headers={'Content-Type': ctype, 'Content-Length': str(len(body))})
 
             class Chunky(io.RawIOBase):
@@ -288,6 +315,7 @@ def run(ctx):
             class R:
                 async def on_post(self, req, resp): box['v'] = await req.get_media()
             app = falcon.asgi.App(); app.add_route('/', R())
+            if handler is not None: app.req_options.media_handlers['application/json'] = handler
             scope = ft.create_scope(method='POST', path='/', headers={'Content-Type': ctype, 'Content-Length': str(len(body))})
             evs = [{'type': 'http.request', 'body': c, 'more_body': i < len(chunks) - 1} for i, c in enumerate(chunks)]
 
@@ -304,6 +332,42 @@ def run(ctx):
             asyncio.run(go())
         return box
 
+    # ------------------------------------------------------------ (a2) a body that is not a JSON text is answered 400, by whole apps
+    # Bodies with one well-aimed defect of every kind (lib_json.gen_invalid; every control character U+0000..U+001F raw inside a string value / key),
+    # kept when the independent RFC 8259 recognizer says "not JSON"; stock / subclassed / explicitly configured handler, any chunking, content types with parameters.
+    name_a2 = 'a non-empty body that is not a JSON text (RFC 8259 grammar, UTF-8) is answered with the 400-class malformed-media error: not parsed, no server error'
+    for ci in range(ctx.n(1000, 10000)):
+        ikind, body = LJ.gen_invalid(rnd, ctrl=chr((ci * 7 + ctx.shard[0]) % 32))
+        verdict = LJ.json_verdict(body)
+        if verdict != 'invalid':
+            ctx.count('notjson_generated_but_' + verdict); continue
+        ctx.count('notjson_' + ikind)
+        stack = rnd.choice(['wsgi', 'asgi'])
+        hvar = rnd.choice(['stock', 'stock', 'stock', 'subclass', 'explicit_loads'])
+        handler = (None if hvar == 'stock' else type('MyJSONHandler', (media.JSONHandler,), {})() if hvar == 'subclass'
+                   else media.JSONHandler(dumps=json.dumps, loads=json.loads))
+        ctype = 'application/json' if rnd.random() < 0.6 else LJ.gen_json_ctype(rnd)[0]
+        chunks = rnd.choice(list(chunkings(body)))
+        failed = None
+        try:
+            box = post_back(stack, ctype, body, chunks, handler)
+            if 'v' in box: failed = f'the body was accepted and parsed to {box["v"]!r} (status {box.get("status")})'
+            elif not str(box.get('status', '')).startswith('400'): failed = f'answered {box.get("status")}, not 400'
+        except Exception as e:  # noqa
+            failed = f'{type(e).__name__}: {e}'
+        # the handler object itself
+        if failed is None:
+            try:
+                v = (handler or media.JSONHandler()).deserialize(io.BytesIO(body), ctype, len(body))
+                failed = f'JSONHandler.deserialize returned {v!r}'
+            except errors.MediaMalformedError as e:
+                if not 400 <= e.status_code < 500: failed = f'MediaMalformedError with status {e.status}'
+            except Exception as e:  # noqa
+                failed = f'JSONHandler.deserialize raised {type(e).__name__}: {e}'
+        ctx.oracle(name_a2, failed is None, failed, {'body': body[:300], 'body_len': len(body), 'defect': ikind, 'stack': stack, 'content_type': ctype, 'json_handler': hvar,
+                                                     'chunks': len(chunks)})
+        ctx.seen(('a2', body[:200], stack, hvar), True)
+
     for ci in range(ctx.n(400, 5000)):
         form = rnd.random() < 0.3
         if form:
@@ -314,26 +378,43 @@ def run(ctx):
                 doc[k] = v if rnd.random() < 0.7 else [v, ''.join(rnd.choice('pq &%') for _ in range(rnd.randint(1, 3)))]
             ctype = 'application/x-www-form-urlencoded'
         else:
-            doc = gen_doc(); ctype = rnd.choice(['application/json', 'application/json; charset=UTF-8'])
+            doc = gen_doc() if rnd.random() < 0.5 else LJ.gen_text_doc(rnd)
+            ctype, cclass = LJ.gen_json_ctype(rnd)
+            ctx.count('roundtrip_ctype_' + cclass)
         stack_out = rnd.choice(['wsgi', 'asgi']); stack_in = rnd.choice(['wsgi', 'asgi'])
-        resp = (falcon.Response if stack_out == 'wsgi' else falcon.asgi.Response)()
-        resp.content_type = ctype
+        hvar = 'stock' if form else rnd.choice(['stock', 'stock', 'subclass', 'explicit_dumps'])
+
+        def new_resp(stack):
+            r_ = (falcon.Response if stack == 'wsgi' else falcon.asgi.Response)()
+            if hvar == 'subclass':
+                r_.options.media_handlers['application/json'] = type('MyJSONHandler', (media.JSONHandler,), {})()
+            elif hvar == 'explicit_dumps':
+                r_.options.media_handlers['application/json'] = media.JSONHandler(dumps=json.dumps, loads=json.loads)
+            r_.content_type = ctype
+            return r_
+        resp = new_resp(stack_out)
         failed = None
+        def render_early(r_, stack):
+            nonlocal failed
+            try:
+                return r_.render_body() if stack == 'wsgi' else asyncio.run(r_.render_body())
+            except Exception as e:  # noqa
+                failed = failed or f'render_body (of the draft) raised {type(e).__name__}: {e}'
         if isinstance(doc, (dict, list)) and rnd.random() < 0.35:
             # history: assign, render early (e.g. for an ETag), change the document in place, assign it again
             ctx.count('roundtrip_reassigned_same_object')
             if form:
                 draft = dict(doc); draft['draft'] = 'x'
                 live = draft; resp.media = live
-                early = resp.render_body() if stack_out == 'wsgi' else asyncio.run(resp.render_body())
+                early = render_early(resp, stack_out)
                 live.clear(); live.update(doc)
             elif isinstance(doc, dict):
                 live = dict(doc); live['__draft__'] = 1; resp.media = live
-                early = resp.render_body() if stack_out == 'wsgi' else asyncio.run(resp.render_body())
+                early = render_early(resp, stack_out)
                 del live['__draft__']
             else:
                 live = list(doc) + ['draft']; resp.media = live
-                early = resp.render_body() if stack_out == 'wsgi' else asyncio.run(resp.render_body())
+                early = render_early(resp, stack_out)
                 live.pop()
             resp.media = live
         else:
@@ -344,6 +425,20 @@ def run(ctx):
             if body is not body2 and body != body2: failed = 'render_body() gave different bytes on the second call'
         except Exception as e:  # noqa
             body = None; failed = f'render_body raised {type(e).__name__}: {e}'
+        if body is not None and not form:
+            # JSON text on the wire is UTF-8 whatever the parameters of the content type say (RFC 8259 8.1), and it is the document
+            try:
+                if not eq_doc(json.loads(body.decode('utf-8')), doc): failed = failed or f'the rendered body {body[:60]!r} is not the document'
+            except ValueError as e:
+                failed = failed or f'the rendered body {body[:60]!r} is not UTF-8 encoded JSON: {type(e).__name__}'
+            # ... on WSGI and ASGI alike: the other stack's Response renders the same document to the same bytes
+            other = 'asgi' if stack_out == 'wsgi' else 'wsgi'
+            try:
+                r2_ = new_resp(other); r2_.media = doc
+                b2_ = r2_.render_body() if other == 'wsgi' else asyncio.run(r2_.render_body())
+                if b2_ != body: failed = failed or f'{stack_out} renders {body[:60]!r}, {other} renders {b2_[:60]!r}'
+            except Exception as e:  # noqa
+                failed = failed or f'render_body on {other} raised {type(e).__name__}: {e}'
         if body is not None:
             for chunks in chunkings(body):
                 box = post_back(stack_in, ctype, body, chunks)
@@ -354,7 +449,7 @@ def run(ctx):
                 elif not eq_doc(box['v'], doc): failed = failed or f'document came back as {box["v"]!r}'
                 if failed: break
         ctx.oracle('round trip: media serialized by the response deserializes to an equal document (WSGI/ASGI, every chunking class)', failed is None, failed,
-                   {'document': doc, 'content_type': ctype, 'render_stack': stack_out, 'parse_stack': stack_in})
+                   {'document': doc, 'content_type': ctype, 'render_stack': stack_out, 'parse_stack': stack_in, 'json_handler': hvar})
         ctx.seen(('rt', repr(doc), ctype, stack_out, stack_in), True)
         ctx.count('roundtrip_form' if form else 'roundtrip_json')
         # render cache vs model
@@ -500,12 +595,23 @@ def run(ctx):
         s_out, s_in = rnd.choice(['wsgi', 'asgi']), rnd.choice(['wsgi', 'asgi'])
         c_out, c_in = rnd.choice(['plain', 'plain', 'resp', 'req', 'both', 'alias']), rnd.choice(['plain', 'plain', 'resp', 'req', 'both', 'alias'])
         served = copy.deepcopy(doc)
+        # the content type the responder announces: none (the default), or JSON with parameters (charset in every spelling, other parameters)
+        rct = None
+        if fmt == 'json' and rnd.random() < 0.6:
+            rct, cclass = LJ.gen_json_ctype(rnd)
+            ctx.count('fullstack_ctype_' + cclass)
+            if rnd.random() < 0.6:
+                doc = LJ.gen_text_doc(rnd); served = copy.deepcopy(doc)
         if s_out == 'wsgi':
             class G:
-                def on_get(self, req, resp): resp.media = served
+                def on_get(self, req, resp):
+                    resp.media = served
+                    if rct is not None: resp.content_type = rct
         else:
             class G:
-                async def on_get(self, req, resp): resp.media = served
+                async def on_get(self, req, resp):
+                    resp.media = served
+                    if rct is not None: resp.content_type = rct
         seen_docs = []
         if s_in == 'wsgi':
             class P:
@@ -517,7 +623,7 @@ def run(ctx):
                     v = await req.get_media(); seen_docs.append(copy.deepcopy(v)); mutate(v); resp.media = {'ok': True}
         failed = None
         case = {'document': doc, 'format': fmt, 'serving_app': f'{s_out}/{c_out}', 'receiving_app': f'{s_in}/{c_in}',
-                'serving_handler': h_out, 'receiving_handler': h_in}
+                'serving_handler': h_out, 'receiving_handler': h_in, 'response_content_type': rct}
         ctype_b2 = FORM_T if fmt == 'form' else 'application/json'
         try:
             a_out = build(s_out, c_out); a_out.add_route('/', G())
@@ -531,6 +637,7 @@ def run(ctx):
             st, hd, body = serve(s_out, a_out, 'GET')
             if st != 200: failed = f'serving the document answered {st}'
             elif hd.get('content-length') not in (None, str(len(body))): failed = f'Content-Length {hd.get("content-length")} for {len(body)} bytes'
+            elif rct is not None and hd.get('content-type') != rct: failed = f'the responder set Content-Type {rct!r}, the response carries {hd.get("content-type")!r}'
             elif fmt == 'json':
                 try:
                     if not eq_doc(json.loads(body.decode('utf-8')), doc): failed = f'the body sent {body[:60]!r} is not the document'
@@ -577,7 +684,6 @@ def run(ctx):
         ctx.count('fullstack_app_' + c_out)
 
     # ------------------------------------------------------------ (c) the JSON text format of the default handler vs the Js model
-    import lib_json as LJ
     from runner import hx
     js = ctx.session('JSONHandler.serialize / deserialize = Js model (dumps / loads, byte level)', 'jsdriver')
     jh = media.JSONHandler()
@@ -632,9 +738,18 @@ def run(ctx):
         if rnd.random() < 0.05:
             k = rnd.randrange(len(b) + 1); b = b[:k] + rnd.choice(LJ.BAD_UTF8) + b[k + rnd.randrange(2):]
         texts.append(b)
+    for ci in range(ctx.n(1000, 10000)):
+        ikind, b = LJ.gen_invalid(rnd, ctrl=chr((ci * 11 + ctx.shard[0]) % 32))
+        ctx.count('js_des_defect_' + ikind)
+        texts.append(b)
     texts.append(b'')
+    name_c = 'JSONHandler.deserialize: a non-empty body that is not a JSON text (RFC 8259 grammar, UTF-8; lib_json.rfc8259) raises MediaMalformedError'
     for b in texts:
+        verdict = LJ.json_verdict(b)
         e = real_des(b)
+        ctx.count('js_text_verdict_' + verdict)
+        if verdict == 'invalid':
+            ctx.oracle(name_c, e == 'mal', None if e == 'mal' else f'deserialize answered {"a value" if e is None else e[:80]!r}', {'body': b[:300], 'body_len': len(b)})
         ctx.seen(('jsl', b), bool(b))
         if e is None: continue
         ctx.count('js_des_' + e.split(' ')[0])
